@@ -17,6 +17,10 @@ case "$PROP" in
     # instrumented variant: overlay generated from the current working tree of /repo
     if go build -o build/vinstr ./cmd/vinstr 2>build/vinstr.err && ./build/vinstr -out build/overlay >build/vinstr.out 2>&1 \
        && go build -tags verif -overlay build/overlay/overlay.json -o build/vcheck-instr ./cmd/vcheck 2>build/build-instr.err; then
+      if [ "$PROP" = "C05" ]; then
+        # adjunct: the same scenario bodies free-running under the race detector
+        go build -race -o build/vcheck-race ./cmd/vcheck 2>build/build-race.err || rm -f build/vcheck-race
+      fi
       exec ./build/vcheck-instr "$PROP" --tier "$TIER"
     fi
     echo "NOTE: instrumentation of the current tree failed; running the uninstrumented parts only" >&2
